@@ -473,6 +473,7 @@ def main():
     drv = vlib.build_driver("C18")
     home = rb.make_home(split=SPLIT)
     fails, mism = [], []
+    import gen_common; gen_common.translator_selfcheck(ck, rb, mism)
     t0 = time.time()
     f, m, reqs = check_clean(ck, rb, home, drv); fails += f; mism += m
     vlib.log("clean part %.1fs" % (time.time() - t0)); t0 = time.time()
